@@ -60,6 +60,7 @@ type vHarness struct {
 	timers  []*vTimer
 	nextTid int
 	me      MultiEndpoint
+	epBuf   []string // the caller's buffer for endpoint lists (reused and overwritten: the library must copy)
 }
 
 func (h *vHarness) install() {
@@ -189,11 +190,17 @@ func (h *vHarness) exec(line string) (obs string) {
 		r, _ := strconv.ParseInt(args["r"], 10, 64)
 		d, _ := strconv.ParseInt(args["d"], 10, 64)
 		h.now, h.timers, h.nextTid, h.me = 0, nil, 0, nil
-		me, err := NewMultiEndpoint(&MultiEndpointOptions{
-			Endpoints:       decList(args["eps"]),
+		h.epBuf = append(h.epBuf[:0], decList(args["eps"])...)
+		opts := &MultiEndpointOptions{
+			Endpoints:       h.epBuf,
 			RecoveryTimeout: time.Duration(r),
 			SwitchingDelay:  time.Duration(d),
-		})
+		}
+		me, err := NewMultiEndpoint(opts)
+		for i := range h.epBuf { // the caller's objects are its own again
+			h.epBuf[i] = "scribbled"
+		}
+		opts.Endpoints, opts.RecoveryTimeout, opts.SwitchingDelay = nil, 0, 0
 		if err != nil {
 			return "err ; none"
 		}
@@ -209,7 +216,13 @@ func (h *vHarness) exec(line string) (obs string) {
 		if h.me == nil {
 			return "bad-op"
 		}
-		if err := h.me.SetEndpoints(decList(args["eps"])); err != nil {
+		// the caller owns the slice: it reuses one buffer for every list it passes and scribbles over it afterwards
+		h.epBuf = append(h.epBuf[:0], decList(args["eps"])...)
+		err := h.me.SetEndpoints(h.epBuf)
+		for i := range h.epBuf {
+			h.epBuf[i] = "scribbled"
+		}
+		if err != nil {
 			return "err ; " + h.digest()
 		}
 		return "ok ; " + h.digest()
